@@ -155,7 +155,12 @@ def run(run: Run) -> int:
         if g.atoms == f.atoms and not (g.hill == h):
             run.violation("two formulas with equal atom counts have different Hill forms", inp, twin=t)
         run.count(key="twin" + repr(t), nontrivial=True, tag="twin")
-    # strings written in Hill order equal their own Hill form
+    # strings written in Hill order equal their own Hill form – over the public table and over a private one
+    from periodictable import core, mass as _mass, density as _density
+    core.PRIVATE_TABLES.pop("c19-private", None)
+    priv = core.PeriodicTable("c19-private")
+    _mass.init(priv)
+    _density.init(priv)     # (a single-atom formula takes its density from the atom)
     m = 300 if run.tier == "quick" else 5000
     for i in range(m):
         ks = []
@@ -176,6 +181,20 @@ def run(run: Run) -> int:
             run.violation("a formula written in Hill order and parsed differs from its own Hill form",
                           dict(string=text), parsed=str(pyside.struct_keys(p.structure)),
                           hill=str(pyside.struct_keys(p.hill.structure)))
+        try:
+            q = formula(text, table=priv)
+            qh = q.hill
+        except Exception as e:  # noqa
+            run.violation("string in Hill order does not parse with table=<private table>: %s" % type(e).__name__,
+                          dict(string=text, table="private"))
+            continue
+        foreign = [repr(a) for a in qh.atoms if core.change_table(a, priv) is not a]
+        if foreign or not (q == qh) or qh.atoms != q.atoms:
+            run.violation("over a private table the Hill form %s" % (
+                "is made of atoms of another table: %s" % foreign[:3] if foreign else
+                "differs from the formula written in Hill order / has other atom counts"),
+                dict(string=text, table="private"))
+    core.PRIVATE_TABLES.pop("c19-private", None)
     return run.finish(RULE, assumptions=[
         "the symbol string order is abstracted to the number 256*c1+c2 (valid for one/two-letter ASCII symbols; "
         "the translator refuses other symbols)",
